@@ -21,8 +21,8 @@ RULE = (
 ASSUMPTIONS = ["fake processes in the virtual lane; 'held' = tasks that reached the process factory and whose coroutine has not finished"]
 
 
-QUICK_BUDGET = {"cases": 6000, "deadline_s": 170, "case_timeout_s": 90, "floors": {"spawn_events": 10000, "quiescent_points": 39833, "real_intervals": 20}}
-THOROUGH_FACTOR = 50  # thorough = the same workload with 50x the cases (floors scale along)
+QUICK_BUDGET = {"cases": 18000, "deadline_s": 170, "case_timeout_s": 90, "floors": {"spawn_events": 30000, "quiescent_points": 119499, "real_intervals": 20}}
+THOROUGH_FACTOR = 17  # thorough = the same workload with 17x the cases (floors scale along)
 
 
 def budget(tier):
